@@ -161,8 +161,68 @@ pub fn shared_identifiers(rep: &mut Rep, base_idx: u64, prop: &'static str) {
     }
 }
 
+/// A broker may list a subscription identifier more than once in one PUBLISH (overlapping filters of one SUBSCRIBE), in any
+/// order with other identifiers in between: the stream still yields the message once.
+pub fn repeated_identifiers(rep: &mut Rep, base_idx: u64, prop: &'static str) {
+    let patterns: [&[usize]; 7] = [&[0, 1, 0], &[0, 0, 1], &[1, 0, 1, 0], &[0, 1, 1, 0], &[0, 1, 0, 1, 0], &[0, 2, 1, 2, 0], &[2, 2, 0, 2]];
+    rep.note(&format!("repeated identifiers: three subscriptions (one of them with its stream dropped in half of the cases), QoS 0/1/2 messages whose subscription identifiers follow the patterns {:?}, QoS 2 ones delivered again before PUBREL: each live stream yields each message once", patterns));
+    let mut idx = base_idx;
+    for (pi, pat) in patterns.iter().enumerate() {
+        for qos in 0..3u8 {
+            for drop_one in [false, true] {
+                let id = format!("repeated-ids:{pi}:{qos}:{}", drop_one as u8);
+                idx += 1;
+                if !rep.take(idx, &id) {
+                    continue;
+                }
+                let mut w = World::boot(WorldCfg { seed: rep.seed, ..Default::default() });
+                let mut sids = Vec::new();
+                let mut subs = Vec::new();
+                for j in 0..3usize {
+                    let a = w.start(j % 2, Kind::Sub);
+                    w.settle_check();
+                    w.deliver_ack(a, 1, 0, 0);
+                    w.settle_check();
+                    w.take_stream(a);
+                    sids.push(w.sub_id_of(a).unwrap_or(1 + j as u32));
+                    subs.push(a);
+                }
+                if drop_one {
+                    w.drop_stream(subs[2]);
+                    w.settle_check();
+                }
+                let ids: Vec<u32> = pat.iter().map(|&k| sids[k]).collect();
+                for round in 0..2u16 {
+                    w.in_publish(qos, 20 + round, false, &ids, false);
+                    w.settle_check();
+                    if qos == 2 {
+                        w.in_publish(2, 20 + round, true, &ids, false);
+                        w.settle_check();
+                        w.in_pubrel(20 + round);
+                        w.settle_check();
+                    }
+                }
+                finish(&mut w);
+                rep.add("evaluations", 1);
+                rep.add("repeated_identifier_cases", 1);
+                rep.distinct(&("repeated-ids", pi, qos, drop_one));
+                for v in w.viols.iter_mut() {
+                    if v.sig.starts_with("stream/") && !v.props.contains(&prop) {
+                        v.props = if prop == "C07" { &["C07"] } else { &["C09"] };
+                    }
+                }
+                if harvest(rep, &mut w, &id) == 0 {
+                    rep.sample(|| format!("{id}: {} items checked", w.counters.stream_items_checked));
+                }
+                add_counters(rep, &w);
+            }
+        }
+    }
+}
+
 pub fn run(rep: &mut Rep) {
     shared_identifiers(rep, 8_800_000, "C09");
+    repeated_identifiers(rep, 8_900_000, "C09");
     wide(rep, 700_000_000);
     let mut alpha = Vec::new();
     for id in [1u16, 2, 3] {
